@@ -738,6 +738,19 @@ class Exec:
         if r.startswith("[") and r.endswith("]"):
             return TupleV([self.operand(x, env, fn) for x in split_top(r[1:-1])])
         if r.startswith("{closure@"):
+            # `{closure@span} { captured: operand, .. }`: the captured values in order (field k of the closure environment)
+            mcl = re.match(r"^\{closure@[^}]*\}\s*\{(.*)\}\s*$", r, re.S)
+            if mcl and mcl.group(1).strip():
+                try:
+                    fields = []
+                    for x in split_top(mcl.group(1)):
+                        x = x.strip()
+                        if not x:
+                            continue
+                        fields.append(self.operand(x.split(":", 1)[1].strip(), env, fn))
+                    return TupleV(fields)
+                except (EncodingError, IndexError):
+                    pass
             return OpaqueV("closure")
         # aggregate: Path::Variant(args) / Path { f: v, .. } / unit variant
         if r.endswith(")"):
